@@ -10,3 +10,6 @@ import AiutiVerif.Batcher.Model
 import AiutiVerif.Batcher.Drive
 import AiutiVerif.Batcher.Props
 import AiutiVerif.Decorators.Props
+import AiutiVerif.Buffer.Model
+import AiutiVerif.Buffer.Drive
+import AiutiVerif.Buffer.Props
